@@ -44,6 +44,13 @@ def one_history(rep, rng, dev, hid):
     max_retries = rng.randint(0, 5)
     nsteps = rng.randint(window + 3, window + 14)
     screening = adaptive and rng.random() < 0.25
+    if screening and hid % 2 == 0:
+        # feature pair adaptive + screening with room to grow: the proposal is then NOT clipped, so the window (which counts solve
+        # steps, whatever the number of self-consistency iterations inside each) is visible in the step sequence
+        dt_init = 10 ** rng.uniform(-4, -3)
+        dt_max = dt_init * 10 ** rng.uniform(2.5, 4.0)
+        window = rng.randint(1, 4)
+        nsteps = rng.randint(window + 6, window + 12)
     # refusal script: number of refused attempts per step
     script = []
     for i in range(nsteps + 5):
@@ -110,6 +117,9 @@ def one_history(rep, rng, dev, hid):
             nvals = len(solver.d_psi_sq_vals)
             res = orig_update(st, running_state, dt, **kw)
             d = solver.d_psi_sq_vals[-1] if len(solver.d_psi_sq_vals) > nvals else 0.0
+            if adaptive and len(solver.d_psi_sq_vals) - nvals != 1 and len(dmax_bad) < 3:
+                dmax_bad.append({"step": int(st["step"]), "values_recorded_in_this_step": len(solver.d_psi_sq_vals) - nvals,
+                                 "expected": 1, "screening": screening})
             if len(solver.d_psi_sq_vals) > nvals:
                 # Model.Update.dmax: the recorded value is max over sites of | |psi'|^2 - |psi|^2 |
                 dm = float(np.max(np.abs(np.abs(np.asarray(res.psi)) ** 2 - np.abs(np.asarray(kw["psi"])) ** 2)))
@@ -133,7 +143,8 @@ def one_history(rep, rng, dev, hid):
             steps.append(dict(step=state["step"], tentative_before=float(solver.tentative_dt), dt_used=None, d=0.0,
                               attempts=list(state["dts"]), refusals=state.get("refused", 0)))
     for b in dmax_bad:
-        rep.not_shown("correspondence: the recorded max |d|psi|^2| differs from Model.Update.dmax of the step's input and result",
+        rep.not_shown("correspondence: the recorded history of max |d|psi|^2| differs from Model.Update (one value per solve step, the dmax of "
+                      "the step's input and result)",
                       {**{k: cfg[k] for k in ("adaptive", "window")}, **b})
     if screening and (raised or any(st_["refusals"] for st_ in steps)):
         # a genuine refusal inside a screening iteration is not comparable (see above): keep the steps before it
@@ -180,6 +191,8 @@ def oracle(rep, cfg, steps, raised):
                               f"min(1/2 (dt + dt_init/delta), dt_max) = {tent!r}", {**c, "screening": cfg.get("screening", False)})
             if tent < cfg["dt_max"]:
                 rep.coverage["unclipped_proposals"] = rep.coverage.get("unclipped_proposals", 0) + 1
+                if cfg.get("screening"):
+                    rep.coverage["unclipped_proposals_with_screening"] = rep.coverage.get("unclipped_proposals_with_screening", 0) + 1
                 if st["refusals"] > 0:
                     rep.coverage["unclipped_proposals_after_retry"] = rep.coverage.get("unclipped_proposals_after_retry", 0) + 1
         # during the warm-up window the proposal stays
